@@ -385,26 +385,47 @@ Section Finalize.
   Hypothesis H_aggperm : forall a1 a2 d1 d2,
     aggs_equiv a1 a2 -> dirs_equiv d1 d2 -> Permutation (aggreport a1 d1) (aggreport a2 d2).
 
-  Theorem finalize_equiv (overridden : amap) (n : nat) (s1 s2 : report) :
+  Lemma mget_app {X} (a b : list (str * X)) q :
+    mget (a ++ b) q = match mget a q with Some v => Some v | None => mget b q end.
+  Proof.
+    induction a as [ | [k v] a IH]; cbn; [reflexivity | ].
+    destruct (str_eqb q k); [reflexivity | exact IH].
+  Qed.
+
+  Lemma dirs_union_equiv prior d1 d2 :
+    dirs_equiv d1 d2 -> dirs_equiv (dirs_union prior d1) (dirs_union prior d2).
+  Proof. intros H q. unfold dirs_union. rewrite !mget_app, H. reflexivity. Qed.
+
+  Theorem finalize_equiv (overridden : option amap) (prior : dmap) (n : nat) (s1 s2 : report) :
     Permutation (V s1) (V s2) -> Permutation (Nn s1) (Nn s2) ->
     aggs_equiv (A s1) (A s2) -> dirs_equiv (D s1) (D s2) ->
-    report_equiv (finalize aggreport overridden n s1) (finalize aggreport overridden n s2).
+    report_equiv (finalize aggreport overridden prior n s1) (finalize aggreport overridden prior n s2).
   Proof.
     intros HV HN HA HD.
     destruct (dedup_notices_perm _ _ HN) as [Pn Cn].
-    assert (Hav : Permutation (f_aggviol (finalize aggreport overridden n s1))
-                              (f_aggviol (finalize aggreport overridden n s2))).
-    { unfold finalize; cbn [f_aggviol].
-      destruct (is_nil overridden) eqn:Eo; cbn [negb].
-      - destruct (Nat.ltb 1 n).
-        + rewrite (aggs_equiv_nil _ _ HA). destruct (is_nil (A s2)); cbn [negb]; [constructor | ].
-          apply H_aggperm; assumption.
-        + cbn. constructor.
-      - rewrite Eo. cbn [negb]. apply H_aggperm; [apply aggs_equiv_refl | exact HD]. }
-    assert (Hall : Permutation (V s1 ++ f_aggviol (finalize aggreport overridden n s1))
-                               (V s2 ++ f_aggviol (finalize aggreport overridden n s2))).
+    pose proof (dirs_union_equiv prior _ _ HD) as HDu.
+    assert (Hown : aggs_equiv (if Nat.ltb 1 n then A s1 else []) (if Nat.ltb 1 n then A s2 else [])).
+    { destruct (Nat.ltb 1 n); [exact HA | apply aggs_equiv_refl]. }
+    set (own1 := if Nat.ltb 1 n then A s1 else []) in *.
+    set (own2 := if Nat.ltb 1 n then A s2 else []) in *.
+    assert (Hall' : aggs_equiv
+              (match overridden with Some o => if is_nil o then own1 else o | None => own1 end)
+              (match overridden with Some o => if is_nil o then own2 else o | None => own2 end)).
+    { destruct overridden as [o | ]; [ | exact Hown].
+      destruct (is_nil o); [exact Hown | apply aggs_equiv_refl]. }
+    set (all1 := match overridden with Some o => if is_nil o then own1 else o | None => own1 end) in *.
+    set (all2 := match overridden with Some o => if is_nil o then own2 else o | None => own2 end) in *.
+    assert (Hav : Permutation (f_aggviol (finalize aggreport overridden prior n s1))
+                              (f_aggviol (finalize aggreport overridden prior n s2))).
+    { unfold finalize; cbn [f_aggviol]. fold own1 own2. fold all1 all2.
+      rewrite (aggs_equiv_nil _ _ Hall').
+      destruct (negb (is_nil all2) || is_some overridden || Nat.ltb 1 n); [ | constructor].
+      apply H_aggperm; assumption. }
+    assert (Hall : Permutation (V s1 ++ f_aggviol (finalize aggreport overridden prior n s1))
+                               (V s2 ++ f_aggviol (finalize aggreport overridden prior n s2))).
     { apply Permutation_app; assumption. }
-    unfold report_equiv. unfold finalize in *; cbn [f_viol f_aggviol f_notices f_scanned f_failed f_skipped f_num f_aggs] in *.
+    unfold report_equiv. unfold finalize in *;
+      cbn [f_viol f_aggviol f_notices f_scanned f_failed f_skipped f_num f_aggs f_dirs] in *.
     repeat split; auto.
     - unfold failed_files. apply nodup_length_perm. apply Permutation_map. exact Hall.
     - apply Permutation_length. exact Hall.
@@ -461,7 +482,8 @@ Section Finalize.
   Theorem lint_schedule_independent (prog : list (stmt lloc)) :
     all_shared_writes_locked lloc_eqb prog = true ->
     modelled_writes prog = [LViol; LNotice; LAggs; LDirs] ->
-    forall (res : str -> bool -> result) (overridden : amap) (force : bool) (names1 names2 : list str),
+    forall (res : str -> bool -> result) (overridden : option amap) (prior : dmap) (force : bool)
+           (names1 names2 : list str),
     Permutation names1 names2 ->
     let rs1 := map (fun f => res f (collect_flag force (length names1))) names1 in
     let rs2 := map (fun f => res f (collect_flag force (length names2))) names2 in
@@ -469,10 +491,10 @@ Section Finalize.
     forall sched1 sched2 st1 st2,
     complete lupd lput prog (length rs1) (fun i => nth i rs1 empty_result) empty_report sched1 st1 ->
     complete lupd lput prog (length rs2) (fun i => nth i rs2 empty_result) empty_report sched2 st2 ->
-    report_equiv (finalize aggreport overridden (length names1) (sh st1))
-                 (finalize aggreport overridden (length names2) (sh st2)).
+    report_equiv (finalize aggreport overridden prior (length names1) (sh st1))
+                 (finalize aggreport overridden prior (length names2) (sh st2)).
   Proof.
-    intros Hl Hm res overridden force names1 names2 Hp rs1 rs2 Hnd sched1 sched2 st1 st2 H1 H2.
+    intros Hl Hm res overridden prior force names1 names2 Hp rs1 rs2 Hnd sched1 sched2 st1 st2 H1 H2.
     destruct (lts_complete_is_fold prog rs1 sched1 st1 Hl Hm H1) as (p1 & Pp1 & E1).
     destruct (lts_complete_is_fold prog rs2 sched2 st2 Hl Hm H2) as (p2 & Pp2 & E2).
     assert (Hlen : length names2 = length names1) by (symmetry; apply Permutation_length; exact Hp).
